@@ -94,7 +94,8 @@ def templates3d(tier):
             tpl("pt", (-2.25, 5.25, -2.75), occ=[body((1.5, 2.5, -1.5), (1, 0.5, 1))], name="oblique sight line beside a box"),
             tpl("box", (0, 3, 0), (4, 0.5, 1), name="wide box close ahead"),
             tpl("box", (0, 0.5, 0), (2, 2, 2), name="box containing the camera"),
-            tpl("box", (-4, 4, 2), (1, 1, 1), (0, 0, 1), occ=[body((-2, 2, 1), (2, 0.5, 2), (1, 0, 0))], name="box up-left behind a turned wall", dens=1),
+            tpl("box", (-4.5, 4, 2), (1, 1, 1), (0, 0, 1), occ=[body((-2, 2, 1), (2, 0.5, 2), (1, 0, 0))], name="box up-left behind a turned wall", dens=1),
+            tpl("box", (-4, 4, 2), (1, 1, 1), (0, 0, 1), occ=[body((-2, 2, 1), (2, 0.5, 2), (1, 0, 0))], name="box touching the 90 edge behind a turned wall", dens=1),
         ]
     return T
 
@@ -414,7 +415,7 @@ def main(tier):
             base = ks[0]
             all_cases.append((bi, {
                 "c": list(c), "den": base["den"], "tgt": base["tgt"], "occ": list(base["occ"]), "cam": base["cam"],
-                "vr": base["vr"], "vri": base["vri"],
+                "vr": base["vr"], "vri": base["vri"], "edge": base["edge"],
                 "ans": [ks[i]["ans"] for i in range(n + 1)], "impl": [ks[i]["impl"] for i in range(n + 1)],
                 "dev": [ks[i]["dev"] for i in range(n + 1)],
             }))
@@ -492,7 +493,7 @@ def main(tier):
                 stats["deviation_trigger_states"] += 1
             ck.case((key, kk), nontrivial=(exp != "free" and rotated))
             if obs is None:  # canSee raised
-                if exp == "free":  # boundary configuration (e.g. `assert h_size > 0` when the target only touches a window edge)
+                if exp == "free" or c["edge"]:  # boundary configuration (`assert h_size > 0` when the target only touches a window edge)
                     stats["exceptions_on_free_cases"] += 1
                     continue
                 ck.violation(f"canSee raised {r['kerr'].get(kk) or r['kerr'].get(str(kk))} but the spec demands {exp} ({b['mode']} case {key} k={kk})",
